@@ -305,3 +305,245 @@ def random_image(rng, cls, enc, nsec=None, nseg=None, small=False, tables_first=
         if g["type"] != PT_NULL and g["filesz"] != 0:
             g["data"] = b[g["offset"]:g["offset"] + g["filesz"]]
     return im, b
+
+
+# ------------------------------------------------------------------ typed ("rich") images
+def elf_hash_abi(name):
+    h = 0
+    for c in name:
+        h = ((h << 4) + c) & 0xffffffff
+        g = h & 0xf0000000
+        if g:
+            h ^= g >> 24
+        h &= ~g & 0xffffffff
+    return h
+
+
+def gnu_hash_abi(name):
+    h = 5381
+    for c in name:
+        h = (h * 33 + c) & 0xffffffff
+    return h
+
+
+def note_bytes(enc, typ, name, desc):
+    e = E(enc)
+    b = struct.pack(e + "III", len(name) + 1, len(desc), typ & 0xffffffff) + name + b"\0"
+    b += b"\0" * ((4 - (len(name) + 1) % 4) % 4)
+    if desc:
+        b += desc + b"\0" * ((4 - len(desc) % 4) % 4)
+    return b
+
+
+def build(cls, enc, secs, segs, rng=None, hdr=None):
+    """Serialise sections (dicts: sname,type,flags,addr,data|None,size,link,info,addralign,entsize) laid out
+    sequentially after the program header table; section header table last.  segs: dicts with type, flags,
+    align and either 'cover': [section indices] or explicit offset/vaddr/filesz/memsz."""
+    w = 32 if cls == "32" else 64
+    im = Image(cls, enc)
+    secs = [dict(sname=b"", type=SHT_NULL, flags=0, addr=0, data=None, size=0, link=0, info=0, addralign=0, entsize=0)] + secs
+    shstr = b"\0"
+    offs = {}
+    for s in secs + [dict(sname=b".shstrtab")]:
+        n = s["sname"]
+        if n not in offs:
+            if n == b"":
+                offs[n] = 0
+            else:
+                offs[n] = len(shstr); shstr += n + b"\0"
+    secs.append(dict(sname=b".shstrtab", type=SHT_STRTAB, flags=0, addr=0, data=shstr, size=len(shstr), link=0, info=0, addralign=1, entsize=0))
+    pos = EHSIZE[cls] + PHSIZE[cls] * len(segs)
+    for s in secs:
+        s["name"] = offs[s["sname"]]
+        al = s["addralign"] if s["addralign"] > 1 else 1
+        if s["data"] is not None:
+            pos = (pos + al - 1) // al * al
+            s["offset"] = pos
+            s["size"] = len(s["data"])
+            pos += len(s["data"])
+        else:
+            s["offset"] = pos if s["type"] == SHT_NOBITS else 0
+    shoff = (pos + 7) // 8 * 8
+    total = shoff + SHSIZE[cls] * len(secs)
+    outsegs = []
+    for g in segs:
+        g = dict(g)
+        if "cover" in g:
+            cov = [secs[i] for i in g.pop("cover")]
+            wd = [s for s in cov if s["data"] is not None]
+            g["offset"] = min(s["offset"] for s in wd) if wd else 0
+            g["filesz"] = (max(s["offset"] + s["size"] for s in wd) - g["offset"]) if wd else 0
+            al = [s for s in cov if s["flags"] & SHF_ALLOC]
+            g["vaddr"] = min(s["addr"] for s in al) if al else 0
+            g["memsz"] = (max(s["addr"] + s["size"] for s in al) - g["vaddr"]) if al else g["filesz"]
+            g["paddr"] = g["vaddr"]
+        outsegs.append(g)
+    im.hdr = dict(type=2, machine=62 if cls == "64" else 3, version=1, entry=0x1000, phoff=EHSIZE[cls] if segs else 0, shoff=shoff,
+                  flags=0, ehsize=EHSIZE[cls], phentsize=PHSIZE[cls], phnum=len(segs), shentsize=SHSIZE[cls], shnum=len(secs),
+                  shstrndx=len(secs) - 1)
+    if hdr:
+        im.hdr.update(hdr)
+    e = E(enc)
+    blob = bytearray(total)
+    blob[0:16] = im.ident
+    blob[16:EHSIZE[cls]] = struct.pack(e + EHDR[cls], *[im.hdr[k] for k in EHDR_F])
+    for i, s in enumerate(secs):
+        o = shoff + i * SHSIZE[cls]
+        blob[o:o + SHSIZE[cls]] = struct.pack(e + SHDR[cls], *[s[k] % (2**64) for k in SHDR_F])
+        if s["data"] is not None:
+            blob[s["offset"]:s["offset"] + len(s["data"])] = s["data"]
+    for j, g in enumerate(outsegs):
+        o = EHSIZE[cls] + j * PHSIZE[cls]
+        blob[o:o + PHSIZE[cls]] = struct.pack(e + PHDR[cls], *[g[k] for k in PHDR_F[cls]])
+    b = bytes(blob)
+    for g in outsegs:
+        g["data"] = None if (g["type"] == PT_NULL or g["filesz"] == 0) else b[g["offset"]:g["offset"] + g["filesz"]]
+    im.sections, im.segments = secs, outsegs
+    return im, b
+
+
+def rich_image(rng, cls, enc, nsym=None):
+    """An image with the table kinds the accessors read: symbols (+SysV/GNU hash), relocations, dynamic,
+    notes, modinfo, arrays, version tables."""
+    e = E(enc)
+    w = 32 if cls == "32" else 64
+    nsym = rng.randint(1, 12) if nsym is None else nsym
+    names = []
+    while len(names) < nsym:
+        n = bytes(rng.choice(b"abcdefgxyz_") for _ in range(rng.randint(1, 8)))
+        if n not in names:
+            names.append(n)
+    nb = rng.randint(1, 5)
+    names.sort(key=lambda n: gnu_hash_abi(n) % nb)
+    strtab = b"\0"
+    soff = []
+    for n in names:
+        soff.append(len(strtab)); strtab += n + b"\0"
+    strtab += b"libc.so.6\0GLIBC_2.2.5\0VERS_1\0"
+    lib_off = strtab.index(b"libc.so.6"); ver_off = strtab.index(b"GLIBC_2.2.5"); v1_off = strtab.index(b"VERS_1")
+    syms = [(0, 0, 0, 0, 0, 0)] + [(soff[i], 0x1000 + 16 * i, rng.randint(0, 64), (rng.choice([0, 1, 2]) << 4) + rng.choice([0, 1, 2]), 0, rng.choice([0, 1, 0xfff1])) for i in range(nsym)]
+    if cls == "32":
+        symtab = b"".join(struct.pack(e + "IIIBBH", nm, v, sz, inf, oth, shn) for nm, v, sz, inf, oth, shn in syms)
+    else:
+        symtab = b"".join(struct.pack(e + "IBBHQQ", nm, inf, oth, shn, v, sz) for nm, v, sz, inf, oth, shn in syms)
+    allnames = [b""] + names
+    # SysV hash
+    nbk = rng.randint(1, 5)
+    buckets = [0] * nbk; chains = [0] * len(allnames)
+    for i in range(1, len(allnames)):
+        h = elf_hash_abi(allnames[i]) % nbk
+        chains[i] = buckets[h]; buckets[h] = i
+    sysv = struct.pack(e + "II", nbk, len(allnames)) + b"".join(struct.pack(e + "I", x) for x in buckets + chains)
+    # GNU hash
+    C = w
+    bs, shift = rng.choice([1, 2, 4]), rng.choice([5, 6, 7])
+    hashes = [gnu_hash_abi(n) for n in names]
+    bloom = [0] * bs
+    for h in hashes:
+        bloom[(h // C) % bs] |= (1 << (h % C)) | (1 << ((h >> shift) % C))
+    gb = [0] * nb; gch = []
+    for k, h in enumerate(hashes):
+        b_ = h % nb
+        if gb[b_] == 0:
+            gb[b_] = k + 1
+        last = (k + 1 == len(hashes)) or (hashes[k + 1] % nb != b_)
+        gch.append((h & ~1) | (1 if last else 0))
+    gnu = struct.pack(e + "IIII", nb, 1, bs, shift) + b"".join(struct.pack(e + ("I" if C == 32 else "Q"), x) for x in bloom) + \
+        b"".join(struct.pack(e + "I", x) for x in gb + gch)
+    # relocations
+    nrel = rng.randint(0, 6)
+    if cls == "32":
+        rel = b"".join(struct.pack(e + "II", 0x2000 + 4 * i, (rng.randint(0, nsym) << 8) + rng.choice([0, 1, 2, 7, 8])) for i in range(nrel))
+        rela = b"".join(struct.pack(e + "IIi", 0x2000 + 4 * i, (rng.randint(0, nsym) << 8) + rng.choice([1, 2]), rng.randint(-8, 8)) for i in range(nrel))
+    else:
+        rel = b"".join(struct.pack(e + "QQ", 0x2000 + 8 * i, (rng.randint(0, nsym) << 32) + rng.choice([0, 1, 2, 7, 8])) for i in range(nrel))
+        rela = b"".join(struct.pack(e + "QQq", 0x2000 + 8 * i, (rng.randint(0, nsym) << 32) + rng.choice([1, 2]), rng.randint(-8, 8)) for i in range(nrel))
+    # dynamic
+    dyn = [(1, lib_off), (14, lib_off), (5, 0x3000), (6, 0x3100), (0x6fffffff, 1), (0x6ffffffd, 1), (0x6ffffef5, 0x3200), (0, 0), (12, 0x1000)]
+    dynb = b"".join(struct.pack(e + ("II" if cls == "32" else "QQ"), t, v) for t, v in dyn)
+    notes = b"".join(note_bytes(enc, rng.randint(0, 5), bytes(rng.choice(b"GNUabc") for _ in range(rng.randint(0, 5))),
+                                bytes(rng.getrandbits(8) for _ in range(rng.choice([0, 1, 4, 5, 16])))) for _ in range(rng.randint(0, 3)))
+    modinfo = b"".join(f + b"=" + v + b"\0" for f, v in [(b"license", b"GPL"), (b"author", b"x"), (b"depends", b"")][:rng.randint(0, 3)])
+    arr = b"".join(struct.pack(e + ("I" if cls == "32" else "Q"), 0x1000 + 8 * i) for i in range(rng.randint(0, 4)))
+    versym = b"".join(struct.pack(e + "H", rng.choice([0, 1, 2])) for _ in range(nsym + 1))
+    verneed = struct.pack(e + "HHIII", 1, 1, lib_off, 16, 0) + struct.pack(e + "IHHII", elf_hash_abi(b"GLIBC_2.2.5"), 0, 2, ver_off, 0)
+    verdef = struct.pack(e + "HHHHIII", 1, 1, 1, 1, elf_hash_abi(b"VERS_1"), 20, 0) + struct.pack(e + "II", v1_off, 0)
+    A = SHF_ALLOC
+    es = 16 if cls == "32" else 24
+    ptr = 4 if cls == "32" else 8
+    S = lambda **k: dict(dict(flags=0, addr=0, size=0, link=0, info=0, addralign=1, entsize=0), **k)
+    secs = [
+        S(sname=b".text", type=SHT_PROGBITS, flags=A | 4, addr=0x1000, data=bytes(rng.getrandbits(8) for _ in range(rng.randint(1, 64))), addralign=16),
+        S(sname=b".dynstr", type=SHT_STRTAB, flags=A, addr=0x3000, data=strtab),                                   # 2
+        S(sname=b".dynsym", type=11, flags=A, addr=0x3100, data=symtab, link=2, info=1, addralign=ptr, entsize=es),    # 3
+        S(sname=b".hash", type=SHT_HASH, flags=A, addr=0x3180, data=sysv, link=3, addralign=4, entsize=4),           # 4
+        S(sname=b".symtab", type=SHT_SYMTAB, data=symtab, link=2, info=1, addralign=ptr, entsize=es),                 # 5
+        S(sname=b".gnu.hash", type=0x6ffffff6, flags=A, addr=0x3200, data=gnu, link=5, addralign=ptr),               # 6
+        S(sname=b".rel.text", type=SHT_REL, data=rel, link=5, info=1, addralign=ptr, entsize=2 * ptr),               # 7
+        S(sname=b".rela.text", type=SHT_RELA, data=rela, link=3, info=1, addralign=ptr, entsize=3 * ptr),            # 8
+        S(sname=b".dynamic", type=SHT_DYNAMIC, flags=A | 1, addr=0x4000, data=dynb, link=2, addralign=ptr, entsize=2 * ptr),  # 9
+        S(sname=b".note.test", type=SHT_NOTE, flags=A, addr=0x4100, data=notes, addralign=4),                        # 10
+        S(sname=b".modinfo", type=SHT_PROGBITS, data=modinfo),                                                       # 11
+        S(sname=b".init_array", type=14, flags=A | 1, addr=0x4200, data=arr, addralign=ptr, entsize=ptr),            # 12
+        S(sname=b".gnu.version", type=0x6fffffff, flags=A, addr=0x4300, data=versym, link=3, addralign=2, entsize=2),  # 13
+        S(sname=b".gnu.version_r", type=0x6ffffffe, flags=A, addr=0x4400, data=verneed, link=2, info=1, addralign=4),  # 14
+        S(sname=b".gnu.version_d", type=0x6ffffffd, flags=A, addr=0x4500, data=verdef, link=2, info=1, addralign=4),   # 15
+        S(sname=b".bss", type=SHT_NOBITS, flags=A | 1, addr=0x5000, data=None, size=rng.choice([0, 16, 4096]), addralign=16),  # 16
+    ]
+    segs = [dict(type=PT_LOAD, flags=5, align=0x1000, cover=[1]),
+            dict(type=PT_LOAD, flags=6, align=0x1000, cover=[2, 3, 4, 6, 9, 10]),
+            dict(type=PT_DYNAMIC, flags=6, align=ptr, cover=[9]),
+            dict(type=PT_NOTE, flags=4, align=4, cover=[10])]
+    return build(cls, enc, secs, segs, rng)
+
+
+# ------------------------------------------------------------------ structure-aware corruption
+def field_sites(im):
+    """(file offset, byte width, description) of every header/table field of an image produced by this module."""
+    cls, enc = im.cls, im.enc
+    sites = []
+    def walk(base, fmt, names, what):
+        off = base
+        for ch, nm in zip(fmt, names):
+            wd = {"H": 2, "I": 4, "Q": 8}[ch]
+            sites.append((off, wd, "%s.%s" % (what, nm)))
+            off += wd
+    walk(16, EHDR[cls], EHDR_F, "ehdr")
+    for i in range(len(im.sections)):
+        walk(im.hdr["shoff"] + i * im.hdr["shentsize"], SHDR[cls], SHDR_F, "sh%d" % i)
+    for j in range(len(im.segments)):
+        walk(im.hdr["phoff"] + j * im.hdr["phentsize"], PHDR[cls], PHDR_F[cls], "ph%d" % j)
+    return sites
+
+
+def boundary_values(width, filelen):
+    vals = [0, 1, 2, 3, 7, 8, 15, 16, 0x28 - 1, 0x28, 0x38 - 1, 0x38, 0x40 - 1, 0x40, 255, 256, 0xffff,
+            filelen - 1, filelen, filelen + 1, 2 * filelen, 2**31 - 1, 2**31, 2**32 - 1, 2**32, 2**63 - 1, 2**63, 2**64 - 1,
+            2**64 - filelen, 2**64 - 16]
+    return sorted(set(v % (2**(8 * width)) for v in vals if v >= 0))
+
+
+def mutate(b, im, rng, k=None):
+    """Apply 1..k structure-aware field corruptions (and occasionally raw byte noise / truncation)."""
+    b = bytearray(b)
+    sites = field_sites(im)
+    e = E(im.enc)
+    desc = []
+    for _ in range(rng.randint(1, k or 3)):
+        r = rng.random()
+        if r < 0.8 and sites:
+            off, wd, what = rng.choice(sites)
+            if off + wd <= len(b):
+                v = rng.choice(boundary_values(wd, len(b))) if rng.random() < 0.8 else rng.getrandbits(8 * wd)
+                b[off:off + wd] = struct.pack(e + {2: "H", 4: "I", 8: "Q"}[wd], v)
+                desc.append("%s=%d" % (what, v))
+        elif r < 0.93:
+            for _ in range(rng.randint(1, 8)):
+                if len(b):
+                    p = rng.randrange(len(b)); b[p] = rng.getrandbits(8)
+            desc.append("noise")
+        else:
+            cut = rng.randrange(len(b) + 1)
+            b = b[:cut]
+            desc.append("truncate=%d" % cut)
+    return bytes(b), desc
